@@ -26,7 +26,7 @@ CHECKS = {
  "C02": ("ribsim", "5/C02", "deterministic simulation runtime: metamorphic arrival-order permutations of candidate sets on fresh Loc-RIBs",
          "candidate sets of 2-5 BGP/static paths from the property's bounded attribute domain are installed on fresh Loc-RIBs under all (up to 120) arrival orders with noise paths added and removed in between; best path and ECMP set (up to paths the decision process cannot distinguish) must not depend on the order; the preference relation on the set must be antisymmetric, transitive and tie only indistinguishable paths"),
  "C04": ("ribsim", "5/C04", "deterministic simulation runtime: recording clients vs the Loc-RIB's selection after every operation",
-         "histories interleaving path add/remove on a Loc-RIB with client registration, unregistration and refresh for best-only / ECMP-only / max-paths 1..4 clients; after every operation each client's accumulated set (initial dump + adds - removes) must equal the first paths of the Loc-RIB's current selection its option admits; any callback after Unregister returned is a violation"),
+         "histories interleaving path add/remove on a Loc-RIB with client registration, unregistration and refresh for best-only / ECMP-only / max-paths 1..4 clients; after every operation each client's accumulated set (initial dump + adds - removes) must equal the first paths of the Loc-RIB's current selection its option admits; any callback after Unregister returned is a violation; in 40 % of the plans independent operations (different paths, different clients) are released together and interleaved at every lock boundary (registration during route changes)"),
  "C18": ("bgpsim", "5/C18", "deterministic simulation: controlled aggregation windows with 1..3000 prefixes and attribute sizes around the message budget",
          "a source announces up to 3000 prefixes with one attribute set (AS paths up to 900 ASNs, up to 80 communities) inside one aggregation window; towards IPv4 classic / MP IPv6 / add-path / 2-octet-AS sessions every UPDATE must be at most 4096 bytes and decodable, no prefix may be announced twice in the flush, and the peer's view must equal the reference export of the Loc-RIB (nothing lost, attributes kept)"),
  "C23": ("bgpsim", "5/C23", "deterministic simulation: generated event sequences checked for membership in an executable RFC 4271 FSM relation",
@@ -34,7 +34,7 @@ CHECKS = {
  "C24": ("bgpsim", "5/C24", "deterministic simulation: outgoing connection through the Dial seam colliding with an incoming one, interleaving chosen by the plan",
          "the neighbour is an active peer (the DUT dials through the overlay's Dial seam) and also connects in; OPEN/KEEPALIVE deliveries on both connections are ordered by the plan (clean collision, racy delays, late second connection) for identifier orderings incl. equal identifiers with different AS; never two Established or two contributing FSMs, exactly one session afterwards, the loser closed with Cease, and in the clean collision the survivor is the connection initiated by the speaker with the higher identifier (RFC 4271 6.8 / RFC 6286)"),
  "C25": ("bgpsim + ribsim", "5/C25", "deterministic simulation with a seeded scheduler at every lock acquisition; waits-for cycle detection and bounded liveness in simulated time",
-         "route updates from live sessions, policy replacements, DisposePeer, Metrics, RIB dumps, static routes (bgpsim) and bare table operations, client (un)registration, refresh, export policy replacement and Loc-RIB disposal (ribsim) are released together and interleaved by the seeded gate scheduler at every simulator-mutex acquisition; a waits-for cycle in the logical lock table or an operation / goroutine still blocked after 600 simulated seconds of quiescence is a violation; afterwards the tables must still serve a fresh operation"),
+         "route updates from live sessions, policy replacements, DisposePeer, Metrics, RIB dumps, static routes (bgpsim) and bare table operations, client (un)registration, refresh, export policy replacement and Loc-RIB disposal (ribsim) are released together and interleaved by the seeded gate scheduler at every simulator-mutex acquisition; a waits-for cycle in the logical lock table or an operation / goroutine still blocked after 600 simulated seconds of quiescence is a violation; afterwards the tables must still serve a fresh operation; collision scenarios followed by disposal; timers batched with teardowns and priority (PCT) scheduling at the gate in part of the plans"),
  "C26": ("bgpsim + ribsim, race build", "5/C26", "deterministic simulation on a -race build of the engine: plan-defined concurrent steps judged by the Go race detector, goroutine choice by seeded yields on one P",
          "the engine is rebuilt with -race: bio-rd is instrumented and keeps its own mutexes, while the simulator runtime and harness are compiled without instrumentation and use locks the detector cannot see (so the simulator adds no happens-before edges between product goroutines beyond goroutine start, timer fire and byte arrival); GOMAXPROCS=1 without asynchronous preemption plus PRNG-chosen yields before lock acquisitions decide the schedule. UPDATE arrivals from 2-4 sessions, import/export policy replacements, Metrics(), GetRIBIn/GetRIBOut + dumps, DisposePeer, session teardown by NOTIFICATION/close, re-connects and static routes (bgpsim) or bare Loc-RIB/Adj-RIB-Out operations (ribsim) are released at one simulated instant; every race report (unordered pair of bio-rd functions) is a violation. Limitation: the interleaving inside a step is the Go scheduler's (deterministic in practice, measured by the double replay), and the detector only sees accesses that were executed"),
  "C27": ("bmpsim", "5/C27", "deterministic simulation with fault injection: hostile and damaged BMP byte streams over the simulated connection, fragmentation and connection loss at seeded points",
@@ -42,7 +42,7 @@ CHECKS = {
  "C28": ("bmpsim", "5/C28", "deterministic simulation: well-formed BMP histories against a model of the up peers' routes per VRF, with session end by peer-down, termination and connection loss",
          "initiation, peer-up (4/2-octet AS, add-path), route monitoring (pre/post policy, ignore-pre / ignore-post / ignored-ASN configurations, multi-NLRI, withdrawals, fragmentation), statistics, peer-down, termination, connection loss and reconnects over 2-4 peers in up to 3 VRFs; after every message each per-VRF table must equal the model (announced and not withdrawn by up peers), recording observers registered on the tables must hold exactly the tables' content, and after a session end no route, neighbour or observer-held path may remain and the message loop must have returned"),
  "C29": ("ribsim", "5/C29", "deterministic simulation runtime: source histories against a route -> advertiser-set model, concurrent sources under the gate scheduler",
-         "2-4 sources call MergedLocRIB's client interface (the gRPC stream is stubbed): advertisements including repeated ones, withdrawals and source drops, sequentially and concurrently (one caller per source, interleaved at lock boundaries); the underlying Loc-RIB must contain a route iff the model's advertiser set is non-empty"),
+         "2-4 sources call MergedLocRIB's client interface (the gRPC stream is stubbed): advertisements including repeated ones, withdrawals and source drops, sequentially and concurrently (one caller per source, interleaved at lock boundaries); the underlying Loc-RIB must contain a route iff the model's advertiser set is non-empty; in half of the plans the sources are real RIS clients fed through a simulated ObserveRIB stream (a drop is the stream ending with an error)"),
  "C31": ("isissim", "5/C31", "deterministic simulation on the mock clock: scripted hello sequences against an adjacency reference model (three-way handshake, holding time, removal)",
          "the real IS-IS server on simulated interfaces (ethernet factory, device updater and package clock seams; mock clock moved only by the plan; product locks and map order under the simulator): one or two scripted neighbours per interface send hellos whose three-way TLV lists the DUT, another system, another circuit, state Down or is missing, with holding times 3/9/30 s, interleaved with clock advances of 0.2..125 s, link events and silence. After every step: Up only if the neighbour's most recent hello listed this system and circuit and the holding time has not passed (one checker period tolerated); Up whenever such a hello arrived on an existing adjacency; a neighbour that stays silent is gone 120 s after it went down whether or not it was ever Up; whenever the local LSP was regenerated it lists exactly the Up adjacencies"),
  "C32": ("isissim", "5/C32", "deterministic simulation on the mock clock: LSP / CSNP / PSNP sequences against an executable ISO 10589 update-process model (database, SRM/SSN flags, transmissions at the 5 s ticks)",
@@ -50,21 +50,21 @@ CHECKS = {
  "C33": ("isissim", "5/C33", "deterministic simulation with fault injection: seeded link up/down sequences on active and passive interfaces, from every initial device state",
          "1-2 active and optionally a passive IS-IS interface start with a device that is up, down or not known yet; up to 6 link events (also redundant ones) interleaved with clock advances and hellos; afterwards every active interface is brought up and a neighbour performs the handshake. No panic in DeviceUpdate / Start / AddInterface / the API or any server goroutine (a crash is a violation), every event returns, hellos are sent again after the last link-up and the adjacency reaches Up"),
  "C36": ("cfgsim", "5/C36", "deterministic simulation with a metamorphic twin run: configurations reloaded into a live BGP server vs. a fresh start with the last one",
-         "the real reload path of cmd/bio-rd (config.GetConfig on a YAML file, loadConfig, bgpConfigurator) runs inside the simulation against the real BGP server (the engine is a test binary of package main, its test file comes from the overlay). Configurations from a bounded grammar (1-2 groups, 2-5 neighbours, inherited and overridden hold time / import / export policies / TTL / add-path family block / multiprotocol / RR client / disabled, neighbours added, removed and moved between groups) are loaded one after the other while scripted neighbours hold established sessions, reconnect when the DUT restarts them and re-announce; a twin run starts fresh with the last configuration. Both must end with the same configured peers, the same PeerConfig per peer, the same OPEN on the current connection, the same Loc-RIB and the same Adj-RIB-Outs"),
+         "the real reload path of cmd/bio-rd (config.GetConfig on a YAML file, loadConfig, bgpConfigurator) runs inside the simulation against the real BGP server (the engine is a test binary of package main, its test file comes from the overlay). Configurations from a bounded grammar (1-2 groups, 2-5 neighbours, inherited and overridden hold time / import / export policies / TTL / add-path family block / multiprotocol / RR client / disabled, neighbours added, removed and moved between groups) are loaded one after the other while scripted neighbours hold established sessions, reconnect when the DUT restarts them and re-announce; a twin run starts fresh with the last configuration. Both must end with the same configured peers, the same PeerConfig per peer, the same OPEN on the current connection, the same Loc-RIB and the same Adj-RIB-Outs; neighbours may be down while a reload is applied, and groups may be active (the DUT dials)"),
  "C05": ("bgpsim", "5/C05", "deterministic simulation: stage-wise reference import model over seeded histories with session flaps",
-         "seeded simulated histories (announce / implicit replace / withdraw, add-path RX on/off, iBGP/eBGP, accept/reject-some/rewriting import policies, clean session flaps and re-establishment, fragmentation, delay) against the real FSMs and tables; at every quiescent checkpoint the Loc-RIB paths of each source must equal reference-import(actual Adj-RIB-In dump)"),
+         "seeded simulated histories (announce / implicit replace / withdraw, add-path RX on/off, iBGP/eBGP, accept/reject-some/rewriting import policies, clean session flaps and re-establishment, fragmentation, delay) against the real FSMs and tables; at every quiescent checkpoint the Loc-RIB paths of each source must equal reference-import(actual Adj-RIB-In dump); a quarter of the plans drive the real Adj-RIB-In directly with Loc-RIB clients that register and unregister anywhere in the history"),
  "C06": ("bgpsim", "5/C06", "deterministic simulation: generator-labelled ineligible announcements, invariant after every step",
          "announcements that are ineligible under every reading (local ASN in path, own ORIGINATOR_ID, local cluster id, OTC violations per role pair, empty AS_PATH on eBGP) mixed with eligible ones and import-policy flips; after every step and checkpoint no labelled tag may be in any Loc-RIB or in any peer's view"),
  "C07": ("bgpsim", "5/C07", "deterministic simulation with fault injection: every exit from Established on the simulated clock and network",
          "NOTIFICATION, hold-timer expiry (peer silence on the simulated clock), broken connection on keepalive, malformed/unexpected messages, DisposePeer, reconnects; after the FSM is seen outside Established nothing of the session may remain in the Loc-RIB, no later write may hit the closed connection, the ASN contribution must be gone; a re-established session starts from an empty Adj-RIB-In and the peer's view must converge to the reference export of the Loc-RIB"),
  "C08": ("bgpsim", "5/C08", "deterministic simulation: stage-wise reference export model (session kinds x add-path x export policy)",
-         "Loc-RIB histories from several peers plus redistributed statics across eBGP / RS-client / iBGP / RR-client sessions, add-path send, RFC 9234 roles, export policies; at quiescent checkpoints every session's Adj-RIB-Out dump must equal reference-export(actual Loc-RIB dump)"),
+         "Loc-RIB histories from several peers plus redistributed statics across eBGP / RS-client / iBGP / RR-client sessions, add-path send, RFC 9234 roles, export policies; at quiescent checkpoints every session's Adj-RIB-Out dump must equal reference-export(actual Loc-RIB dump); a fifth of the plans drive real Adj-RIB-Outs of three session kinds on a real Loc-RIB directly, registering while paths are added and removed under the gate scheduler"),
  "C09": ("bgpsim", "5/C09", "deterministic simulation: always-on wire monitor with provenance through unique tags",
          "every UPDATE the DUT writes is decoded by the independent codec, each NLRI attributed through its tag to the announcing peer, and the RFC export rule table (NO_ADVERTISE, NO_EXPORT, split horizon, iBGP reflection, OTC egress, AS prepend, next-hop-self, ORIGINATOR_ID/CLUSTER_LIST, LOCAL_PREF only iBGP) asserted per message under delays, flaps and policy replacement"),
  "C10": ("bgpsim", "5/C10", "deterministic simulation: simulator-owned aggregation ticker, operations placed around the tick",
-         "announce / withdraw / replace at plan-chosen simulated times around the update sender's aggregation tick (same-window withdraw-after-announce, several operations per window, aggregation interval as a per-run knob, same-instant tie shuffling); once changes stop the replay of the UPDATEs received by the peer must equal the Adj-RIB-Out"),
+         "announce / withdraw / replace at plan-chosen simulated times around the update sender's aggregation tick (same-window withdraw-after-announce, several operations per window, aggregation interval as a per-run knob, same-instant tie shuffling); once changes stop the replay of the UPDATEs received by the peer must equal the Adj-RIB-Out; a quarter of the plans call AddPath / RemovePath of live sessions' Adj-RIB-Outs directly (replacement without removal, duplicates)"),
  "C11": ("bgpsim", "5/C11", "deterministic simulation: add-path send histories with shared identifiers",
-         "add-path send sessions with long add/remove/re-add cycles over few prefixes whose paths share attributes; distinct paths of a prefix must have distinct ids, ids in the peer's view must be the ids the Adj-RIB-Out stores, and every selected exportable path must be stored (allocation keeps working)"),
+         "add-path send sessions with long add/remove/re-add cycles over few prefixes whose paths share attributes; distinct paths of a prefix must have distinct ids, ids in the peer's view must be the ids the Adj-RIB-Out stores, and every selected exportable path must be stored (allocation keeps working); a fifth of the plans judge direct Adj-RIB-Out operations against an operation-level model (a removal withdraws the path it names)"),
  "C12": ("bgpsim", "5/C12", "deterministic simulation: metamorphic twin run (policies replaced at run time vs configured from the start)",
          "(old policy, new policy, route set) triples from the bounded policy language, including replacements that differ in exactly one action value or filter bound and repeated replacements on live sessions; a twin run with the final policies from the start must end with equal Loc-RIB and Adj-RIB-Out contents"),
  "C13": ("bgpsim", "5/C13", "deterministic simulation: deep table snapshots bracketing export-side operations",
